@@ -15,21 +15,7 @@ TRUSTED = ("Trusted base: CPython's re._parser as the regex front end and the ba
            "program front end; mypy's inferred types where a rule uses them; purity of bs4 read accessors; "
            "functools.lru_cache locking; CPython's default 4300-digit int limit.")
 
-# pid -> dict(claimed, text, note, technique, design_ref) ; unclaimed: reason
-PROPS: dict[str, dict] = {}
-
-
-def claim(pid: str, text: str, note: str, technique: str) -> None:
-    PROPS[pid] = {'claimed': True, 'text': text, 'note': note, 'technique': technique}
-
-
-def decline(pid: str, reason: str) -> None:
-    PROPS[pid] = {'claimed': False, 'reason': reason}
-
-
-ALL_IDS = [f'C{i:02d}' for i in range(1, 21)]
-for _p in ALL_IDS:
-    decline(_p, 'rule pack not built yet in this round (see DESIGN.md section 2 for the planned decided clauses)')
+from .claimapi import ALL_IDS, PROPS  # noqa: E402
 
 
 def _load_claims() -> None:
